@@ -171,6 +171,39 @@ func c07main(c *Ctx) {
 		}
 		restore := withFlags(0, slog.Lcaller)
 		defer restore()
+		if idx%9 == 4 {
+			// a logger made with the EMPTY name whose own attributes are given positionally in that same New call (package
+			// level and as a child): they are its own attributes, every one of them
+			pf := Format(idx % 3)
+			for _, mk := range []func() *slog.Entry{
+				func() *slog.Entry { return slog.New("", "alpha~", "own#a", "beta~", "own#b", slog.NewAttr("gamma~", "own#c")).Root() },
+				func() *slog.Entry { return slog.New("anon-parent").Root().New("", "alpha~", "own#a", "beta~", "own#b", slog.NewAttr("gamma~", "own#c")) },
+			} {
+				fl := mk()
+				fl.SetWriter(w).SetErrorWriter(w).SetLevel(slog.AlwaysLevel)
+				setFormat(fl, pf)
+				evs := capture(log, func() { fl.Info("probe") })
+				if len(evs) == 1 {
+					d, err := decodeRecord(pf, evs[0].Data, false, false)
+					if err != nil {
+						d, err = decodeRecord(pf, evs[0].Data, true, false) // (a logger name in the record, though none was given)
+					}
+					if err == nil {
+						got := map[string]string{}
+						for _, a := range d.Attrs {
+							got[a.Key] = a.Text
+						}
+						for k, v := range map[string]string{"alpha~": "own#a", "beta~": "own#b", "gamma~": "own#c"} {
+							if got[k] != v {
+								c.R.Violation(idx, "missing", "C07/missing/own-attributes-given-to-New-with-an-empty-name", fmt.Sprintf("New(\"\", alpha~, own#a, beta~, own#b, Attr(gamma~)): the record shows %s=%q (attributes %v)\npayload: %s", k, got[k], briefAttrs(d.Attrs), q(clip(string(evs[0].Data), 500))), nil)
+								return
+							}
+						}
+						c.R.Add("loggers_made_with_an_empty_name_and_positional_attributes", 1)
+					}
+				}
+			}
+		}
 		if inherit {
 			slog.AddFlags(slog.LattrsR)
 		} else {
